@@ -210,7 +210,9 @@ class ModelFittingDataTree(ProblemSingleObjective):
                     weights_from_file=weights_from_file,
                 )
 
-            self.all_target_data = targets.isel(indexers=target_fit_range.to_dict())
+            self.all_target_data = targets.isel(
+                indexers=self._target_indexers(target_fit_range)
+            )
             self.target_full_scale = targets
 
     def get_bounds(self) -> tuple[Sequence[float], Sequence[float]]:
@@ -223,6 +225,16 @@ class ModelFittingDataTree(ProblemSingleObjective):
         tuple of lower boundaries and upper boundaries
         """
         return self._lower_boundaries, self._upper_boundaries
+
+    def _target_indexers(
+        self, fit_range: FitRange2D | FitRange3D
+    ) -> dict[str, slice]:
+        """Get the indexers of a target fit range (its time axis is 'readout_time')."""
+        indexers: dict[str, slice] = dict(fit_range.to_dict())
+        if "time" in indexers:
+            indexers["readout_time"] = indexers.pop("time")
+
+        return indexers
 
     def _configure_weights(
         self,
@@ -250,7 +262,7 @@ class ModelFittingDataTree(ProblemSingleObjective):
                 )
 
             self.weighting_from_file = weights_data_array.isel(
-                indexers=self.targ_fit_range.to_dict()
+                indexers=self._target_indexers(self.targ_fit_range)
             )
 
         elif weights is not None:
